@@ -480,10 +480,19 @@ def threaded_checkpoint_used_outside(rng, s, b):
 @mutator("C05")
 def threaded_action_compared_outside(rng, s, b):
     ta = _threaded_actions(s)
-    cps = [c for c in s["checkpoints"] if c["ctx"] is None]
-    if not ta or not cps:
+    if not ta:
         return None
-    a, c = rng.choice(ta), rng.choice(cps)
+    a = rng.choice(ta)
+    # checkpoints without thread context, or bound to a thread group that the action's group does not enclose
+    cps = [c for c in s["checkpoints"] if c["ctx"] is None or a["ctx"][1] not in _chain(s, c["ctx"][1])]
+    bound = [c for c in cps if c["ctx"] is not None]
+    if not cps:
+        return None
+    c = rng.choice(bound) if bound and rng.random() < 0.6 else rng.choice(cps)
+    # the comparison must not close a cycle (that would be rejected for another reason)
+    users = [x["id"] for x in s["actions"] if x["dep"] == ("checkpoint", c["id"])]
+    if any(u == a["id"] or u in b.anc.get(a["id"], set()) for u in users):
+        return None
     add_dep(rng, c, b.make_cmp(a["id"])[0])
     return "threaded action compared by a checkpoint outside its thread group"
 
@@ -493,7 +502,11 @@ def variable_used_outside(rng, s, b):
     if not s["groups"]:
         return None
     g = rng.choice(s["groups"])
-    cps = [c for c in s["checkpoints"] if c["ctx"] is None or g["id"] not in _chain(s, c["ctx"][1])]
+    # outside g's scope, and no group visible from there may carry the same variable NAME (variables are resolved by
+    # name along the checkpoint's own chain: a same-named variable of another branch would make the comparison legal)
+    def names_visible(c):
+        return [x["var"] for x in s["groups"] if c["ctx"] is not None and x["id"] in _chain(s, c["ctx"][1])]
+    cps = [c for c in s["checkpoints"] if (c["ctx"] is None or g["id"] not in _chain(s, c["ctx"][1])) and g["var"] not in names_visible(c)]
     if not cps:
         return None
     c = rng.choice(cps)
